@@ -7,7 +7,7 @@ use specs::storage::{
     FlaggedStorage, HashMapStorage, NullStorage, StorageEntry, VecStorage,
 };
 use specs::world::EntitiesRes;
-use std::cell::RefCell;
+use std::cell::{Cell, RefCell};
 use std::fmt::Write as _;
 use std::panic::{catch_unwind, AssertUnwindSafe};
 use std::sync::{Arc, Mutex};
@@ -222,10 +222,22 @@ comp!(CDFDense, 10, DerefFlaggedStorage<Self, DenseVecStorage<Self>>, 2, tracked
 comp!(CDFBTree, 11, DerefFlaggedStorage<Self, BTreeStorage<Self>>, 2, tracked_fns!(););
 
 /// Zero-sized component in the null storage; its value is always 0.
-#[derive(Default, Debug)]
+#[derive(Debug)]
 pub struct CNull;
+// Zero-sized values are indistinguishable, so they are counted: every value constructed (by the harness or by
+// `Default`) must have been destroyed exactly once when the world is gone (checked at `drop_world`, C08).
+thread_local! {
+    static ZST_MADE: Cell<u64> = Cell::new(0);
+    static ZST_DROPPED: Cell<u64> = Cell::new(0);
+}
+pub fn zst_reset() { ZST_MADE.with(|c| c.set(0)); ZST_DROPPED.with(|c| c.set(0)); }
+pub fn zst_counts() -> (u64, u64) { (ZST_MADE.with(|c| c.get()), ZST_DROPPED.with(|c| c.get())) }
+impl Default for CNull {
+    fn default() -> Self { ZST_MADE.with(|c| c.set(c.get() + 1)); CNull }
+}
 impl Drop for CNull {
     fn drop(&mut self) {
+        ZST_DROPPED.with(|c| c.set(c.get() + 1));
         note_drop(0);
     }
 }
@@ -235,7 +247,7 @@ impl Component for CNull {
 impl Comp for CNull {
     const KIND: usize = 5;
     const TRACKED: u8 = 0;
-    fn new(_: i64) -> Self { CNull }
+    fn new(_: i64) -> Self { CNull::default() }
     fn val(&self) -> i64 { 0 }
     fn set(&mut self, _: i64) {}
     shared_rjoin_fn!();
@@ -320,6 +332,15 @@ pub enum Op {
     RJoin { k: usize, mutable: bool, shared: bool, acts: Vec<RAct> },
     DropWorld,
     Fault(u64),
+    /// The same storage operation through the `GenericReadStorage` / `GenericWriteStorage` traits (inner op is one of
+    /// Get, GetMut, Ins, Rem); printed with a leading `g` (`gget`, `ggetmut`, `gins`, `grem`). Same model operation.
+    /// `GenericWriteStorage::remove` returns nothing: the harness reads the value first and does not log its destruction,
+    /// so that the line reads like `rem`.
+    Generic(Box<Op>),
+    /// Probe outside the model: `entry_inner(2^24 + 1).or_insert(v)` — the mask refuses the index (panic inside
+    /// `BitSet::add`), and the value handed over must still be destroyed exactly once (C08; no destructor panics).
+    /// Only generated as the last op before `drop_world`, for kinds whose storage tolerates the far index cheaply.
+    EntryFar(usize, i64),
     Dump,
 }
 
@@ -403,6 +424,8 @@ pub fn show_op(op: &Op) -> String {
         }
         Op::DropWorld => s.push_str("drop_world"),
         Op::Fault(n) => write!(s, "fault {}", n).unwrap(),
+        Op::Generic(inner) => { s.push('g'); s.push_str(&show_op(inner)); }
+        Op::EntryFar(k, v) => write!(s, "entry_far {} {}", k, v).unwrap(),
         Op::Dump => s.push_str("dump"),
     }
     s
@@ -502,6 +525,12 @@ pub fn parse_ops(ts: &[&str]) -> Option<Op> {
         }
         ["drop_world"] => Op::DropWorld,
         ["fault", n] => Op::Fault(n.parse().ok()?),
+        [g, rest @ ..] if ["gget", "ggetmut", "gins", "grem"].contains(g) => {
+            let mut v: Vec<&str> = vec![&g[1..]];
+            v.extend_from_slice(rest);
+            Op::Generic(Box::new(parse_ops(&v)?))
+        }
+        ["entry_far", k, v] => Op::EntryFar(k.parse().ok()?, v.parse().ok()?),
         ["dump"] => Op::Dump,
         _ => return None,
     })
@@ -537,6 +566,8 @@ pub struct Exec {
     pub world: Option<World>,
     pub ctx: Shared,
     pub pending_fault: Option<u64>,
+    /// a destructor fault was armed in this case (leaks are then allowed: C19)
+    pub faulted: bool,
 }
 
 fn resolve(ctx: &Shared, k: usize) -> Option<Entity> {
@@ -883,6 +914,60 @@ fn exec_inner(world: &mut World, ctx: &Shared, op: &Op) -> String {
         }
         Op::DropWorld => "dropped".into(), // handled by Exec::exec (needs ownership)
         Op::Fault(_) => "ok".into(),        // handled by Exec::exec
+        Op::Generic(inner) => {
+            use specs::storage::{GenericReadStorage, GenericWriteStorage};
+            match &**inner {
+                Op::Get(k, h) => {
+                    if !is_reg(ctx, *k) { return "nostore".into(); }
+                    let e = match resolve(ctx, *h) { Some(e) => e, None => return "skip".into() };
+                    with_kind!(*k, T => { let st = world.read_storage::<T>(); opt_val(GenericReadStorage::get(&st, e)) })
+                }
+                Op::GetMut { k, h, derefs, write } => {
+                    if !is_reg(ctx, *k) { return "nostore".into(); }
+                    let e = match resolve(ctx, *h) { Some(e) => e, None => return "skip".into() };
+                    with_kind!(*k, T => {
+                        let mut st = world.write_storage::<T>();
+                        let old = st.get(e).map(|c| c.val());
+                        match GenericWriteStorage::get_mut(&mut st, e) {
+                            Some(acc) => { apply_access::<T, _>(acc, *derefs, *write); format!("some {}", old.unwrap_or(-999)) }
+                            None => "none".into(),
+                        }
+                    })
+                }
+                Op::Ins(k, h, v) => {
+                    if !is_reg(ctx, *k) { return "nostore".into(); }
+                    let e = match resolve(ctx, *h) { Some(e) => e, None => return "skip".into() };
+                    with_kind!(*k, T => {
+                        let mut st = world.write_storage::<T>();
+                        match GenericWriteStorage::insert(&mut st, e, T::new(*v)) {
+                            Ok(None) => "ins".into(),
+                            Ok(Some(old)) => { let s = format!("rep {}", old.val()); log_pause(|| drop(old)); s }
+                            Err(_) => "err".into(),
+                        }
+                    })
+                }
+                Op::Rem(k, h) => {
+                    if !is_reg(ctx, *k) { return "nostore".into(); }
+                    let e = match resolve(ctx, *h) { Some(e) => e, None => return "skip".into() };
+                    with_kind!(*k, T => {
+                        let mut st = world.write_storage::<T>();
+                        let old = st.get(e).map(|c| c.val());
+                        log_pause(|| GenericWriteStorage::remove(&mut st, e));
+                        match old { Some(v) => format!("some {}", v), None => "none".into() }
+                    })
+                }
+                other => exec_inner(world, ctx, other),
+            }
+        }
+        Op::EntryFar(k, v) => {
+            if !is_reg(ctx, *k) { return "nostore".into(); }
+            if ![0usize, 3, 4, 6, 8].contains(k) { return "skip".into(); }
+            with_kind!(*k, T => {
+                let mut st = world.write_storage::<T>();
+                let r = catch_unwind(AssertUnwindSafe(|| { let _ = st.entry_inner((1u32 << 24) + 1).or_insert(T::new(*v)); }));
+                if r.is_ok() { "ok".into() } else { "panic".into() }
+            })
+        }
         Op::Dump => {
             // full observable content of every registered storage: `k [ i=v … ]`
             let regs: Vec<usize> = { let c = ctx.lock().unwrap(); (0..NUM_KINDS).filter(|k| c.registered[*k]).collect() };
@@ -913,13 +998,15 @@ impl Exec {
     pub fn new() -> Self {
         let mut c = Ctx::default();
         for _ in 0..NUM_KINDS { c.readers.push(None); }
-        Exec { world: Some(World::new()), ctx: Arc::new(Mutex::new(c)), pending_fault: None }
+        zst_reset();
+        Exec { world: Some(World::new()), ctx: Arc::new(Mutex::new(c)), pending_fault: None, faulted: false }
     }
 
     /// Executes one top-level op; returns result tokens, the nested transcript lines it produced
     /// and the values destroyed during it (sorted).
     pub fn exec(&mut self, op: &Op) -> (String, Vec<String>, Vec<i64>) {
         if let Op::Fault(n) = op {
+            self.faulted = true;
             self.pending_fault = Some(*n);
             return ("ok".into(), Vec::new(), Vec::new());
         }
@@ -932,7 +1019,10 @@ impl Exec {
                 Some(w) => {
                     let r = catch_unwind(AssertUnwindSafe(|| drop(w)));
                     self.ctx.lock().unwrap().readers.iter_mut().for_each(|r| *r = None);
-                    if r.is_ok() { "dropped".to_string() } else { "panic".to_string() }
+                    let (made, gone) = zst_counts();
+                    if !r.is_ok() { "panic".to_string() }
+                    else if made != gone && !self.faulted { format!("dropped zst_made={} zst_dropped={}", made, gone) }
+                    else { "dropped".to_string() }
                 }
                 None => "skip".to_string(),
             }
@@ -1106,7 +1196,18 @@ fn gen_simple_store_op(rng: &mut Rng, p: &StoreProfile, nlog: &mut usize, val: &
         if p.rjoin { 2 } else { 0 }, 0, 0,
     ];
     let ws = if p.churn { churn_ws } else { ws };
-    match rng.weighted(&ws) {
+    let op = gen_store_op_inner(rng, &ws, p, k, h, null, val, nlog, depth);
+    // a fifth of the plain lookups / accesses / insertions / removals go through the generic storage traits
+    if matches!(op, Op::Get(..) | Op::GetMut { .. } | Op::Ins(..) | Op::Rem(..)) && rng.chance(1, 5) {
+        return Op::Generic(Box::new(op));
+    }
+    op
+}
+
+#[allow(clippy::too_many_arguments)]
+fn gen_store_op_inner(rng: &mut Rng, ws: &[u32; 31], p: &StoreProfile, k: usize, h: usize, null: bool, val: &mut i64, nlog: &mut usize, depth: u32) -> Op {
+    let mut nv = |val: &mut i64| { *val += 1; if null { 0 } else { *val } };
+    match rng.weighted(ws) {
         0 => { *nlog += 1; Op::CreateW { atomic: false, dropped: rng.chance(1, 8), comps: gen_comps(rng, &p.kinds, val) } }
         1 => { *nlog += 1; Op::CreateW { atomic: true, dropped: rng.chance(1, 8), comps: gen_comps(rng, &p.kinds, val) } }
         2 => Op::Has(k, h),
@@ -1214,6 +1315,10 @@ pub fn gen_store_script(rng: &mut Rng, len: usize, p: &StoreProfile) -> Vec<Op> 
         ops.push(op);
     }
     if p.drop_world {
+        if !p.faults && rng.chance(1, 6) {
+            let cands: Vec<usize> = p.kinds.iter().cloned().filter(|k| [0usize, 3, 4, 6, 8].contains(k)).collect();
+            if !cands.is_empty() { val += 1; ops.push(Op::EntryFar(*rng.pick(&cands), val)); }
+        }
         if p.faults && rng.chance(1, 2) { ops.push(Op::Fault(rng.below(6))); }
         ops.push(Op::DropWorld);
     }
